@@ -747,7 +747,12 @@ func (w *world48) resSrc(b *sb, d *resDecl) {
 	b.p("  access(all) resource %s%s {", d.name, conf)
 	var ps, as []string
 	for _, f := range d.prims {
-		b.p("    access(all) var %s: %s", f.name, f.t.src())
+		acc := "all"
+		if f.name == "f1" {
+			// an entitled member: destruction-event defaults (`self.f1`, `base.f1`) are evaluated with full authorization
+			acc = "Ent"
+		}
+		b.p("    access(%s) var %s: %s", acc, f.name, f.t.src())
 		b.p("    access(all) fun %s(_ v: %s) { self.%s = v }", setterName(f.name), f.t.src(), f.name)
 		ps = append(ps, f.name+": "+f.t.src())
 		as = append(as, "self."+f.name+" = "+f.name)
@@ -835,6 +840,7 @@ func newWorld48(r *rand.Rand) *world48 {
 	var b0, b1 sb
 	// ---- C0
 	b0.p("access(all) contract C0 {")
+	b0.p("  access(all) entitlement Ent")
 	ns := 1 + r.IntN(3)
 	for i := 0; i < ns; i++ {
 		sd := w.genStruct("C0", loc0, i)
@@ -897,6 +903,7 @@ func newWorld48(r *rand.Rand) *world48 {
 	// ---- C1 (another account, imports C0)
 	b1.p("import C0 from 0x1")
 	b1.p("access(all) contract C1 {")
+	b1.p("  access(all) entitlement Ent")
 	if chance(r, 2, 3) {
 		sd := w.genStruct("C1", loc1, 0)
 		w.structs = append(w.structs, sd)
